@@ -180,3 +180,8 @@ class RemoteContext(SupportRemoteGetState):
             return True
         except ConnectionClosedError:
             return False
+        except Exception:
+            # whatever goes wrong while creating a worker for one client (e.g. the client has reset the connection
+            # in the middle of the handshake) must not take the whole context - and other clients' workers - down
+            logger.exception('Could not create a new worker in context {}', self._id)
+            return False
